@@ -4,6 +4,11 @@ State space (product bound, exhaustive):
   det : bound pattern per variable ^ n  x  row-sense mix  x  cone kind  x  min/max
   ro  : uncertainty-set kind x decision-rule kind x bound pattern pair x objective form x min/max
   dro : support kind x expectation kind x probability kind x adaptation kind x min/max
+  mix : (det, ro, dro) programs with >= 3 second-order cones of sizes 3 and 4 in both qmat orders and both signs
+        of the data, dualised by the general SOC layout
+  hist: call histories {D,st,D}, {P,D,st,D}, {D,st,P,D}, {S,D,st,S,D}, {D,D,st,D}, {D,st,D,st2,D} on LP / SOCP /
+        exp-cone / ro / dro models x kind of change (row, bound, cone): after every D the dual optimum is minus
+        the optimum of a FRESH build of the model as declared at that point
 Oracle (differential, two formulations of the real implementation judged by independent solvers):
   both `m.do_math()` and `m.do_math(primal=False)` are solved by ECOS (LP-only programs also by the
   default HiGHS path and Gurobi, SOCPs also by Gurobi); whenever the primal is reported optimal (it is
@@ -19,10 +24,14 @@ RULE = ('det: every assignment of the 10 bound patterns {free,>=0,<=0,lower!=0,u
         'fixed !=0} to n=2 variables x 7 row-sense mixes (1-3 rows of <=,>=,==) x 20 cone kinds x {min,max} '
         '(thorough: + all 39 ordered row mixes x 8 cone kinds, + n=3 x 3 row mixes x 5 cone kinds); '
         'ro: 17 set kinds x 3 rule kinds x 6 bound pairs x 2 objective forms x {min,max}; dro: 4 supports x 3 '
-        'expectation sets x 2 probability sets x 4 adaptations x {min,max}.  A case is non-trivial when primal and '
+        'expectation sets x 2 probability sets x 4 adaptations x {min,max}; mix: 3 front ends x 4 (cone-size order, '
+        'sign) x 6 structural variants x {min,max}; hist: 7 models x 3 kinds of change x 6 histories x {min,max}.  '
+        'A case is non-trivial when primal and '
         'dual are both reported optimal by the same interface, |v_P| > 1e-3 and (det) a finite user bound or a '
         'row under test is active at the primal solution / (ro,dro) the program went through the robust-'
-        'counterpart path (a robust row exists)')
+        'counterpart path (a robust row exists) / (mix) the primal has cones of two different sizes and the dual kept '
+        'one row per primal column (general layout) / (hist) every change moved the optimum and >= 2 duals were '
+        'judged')
 ASSUMPTIONS = [
     'primal instances are feasible, bounded and strictly feasible by construction (compact box rows on every '
     'variable, an interior centre point); the check still conditions on the solver reporting the primal optimal',
